@@ -76,6 +76,11 @@ def stopping_games(draw, min_inner=1, max_inner=8, dyadic=None, rewards=REWARD_P
     tl = [None] * n
     owner_pool = owners or (P1, P2, PR, PR)
     names = NAMES if draw(st.integers(0, 4)) else tuple(draw(st.permutations(TRICKY_NAMES)))[:6]
+    if names is not NAMES and draw(st.booleans()):
+        # the empty name on the first or second action of every player state (a falsy but legal label)
+        rest = [x for x in names if x != ""][:5]
+        rest.insert(draw(st.integers(0, 1)), "")
+        names = tuple(rest)
     for a in inner:
         pl = draw(st.sampled_from(owner_pool))
         if a in dead:
